@@ -27,13 +27,48 @@ RULE = ("rasters <= 56 cells (quick) / <= 225 (thorough); observations: 0..6 sou
         "nodata 0/-9999/255), masks: none, random obstacles, walls with a gap, sources inside obstacles; friction none or "
         "in {1/2,1,2,3} (float32/float64); cell sizes from Pythagorean pairs with either sign of xres and yres, default "
         "transform on one-row/one-column rasters; geographic grids on both hemispheres with an exact table in place of "
-        "degree_metres_x/y; dissolve: Voronoi label rasters with background, 1..K-1 labels dissolved by label or by location. "
+        "degree_metres_x/y; scale families: in ~45 % of the cases the cell sizes (projected: transform, geographic: the "
+        "metres-per-degree table) and/or the whole friction field are multiplied by one power of two 2**-24..2**20 (every float "
+        "operation stays exact), spread2d is run on the unscaled twin too: dst must scale exactly; dissolve: Voronoi label rasters with background, 1..K-1 labels dissolved by label or by location. "
         "non-trivial = >= 2 sources or >= 1 obstacle (spread), >= 2 surviving regions (dissolve); distinct = SHA-1 of all inputs")
 
 PYTH = [(3, 4), (4, 3), (0.75, 1), (1.5, 2), (6, 8), (5, 12), (8, 15), (2, 1.5), (12, 5), (1, 0.75)]
 TRIPLES = [(3, 4), (4, 3), (5, 12), (12, 5), (8, 15), (15, 8), (6, 8), (20, 21)]
 FRICTION = [0.5, 1.0, 2.0, 3.0]
 OBS_DT = [np.int32, np.int64, np.uint8, np.float32]
+SCALE_LO, SCALE_HI = -24, 20   # exponents of the power-of-two scale families
+
+
+def gen_exp(rng):
+    """exponent k of a scale 2**k: the ends of the range, or anything in between (never 0)"""
+    u = rng.random()
+    if u < 0.3:
+        return SCALE_LO if rng.random() < 0.7 else SCALE_HI
+    while True:
+        k = rng.randint(SCALE_LO, SCALE_HI)
+        if k != 0:
+            return k
+
+
+def gen_scales(rng, geo_kind):
+    """(exponent of the cell-size scale, exponent of the friction scale); multiplying by a power of two is exact in
+    binary floating point (no overflow / underflow here: |exponent| <= 48 in total), so a scaled case is the same
+    exact-arithmetic case at another magnitude of the step costs. Default transform: only friction can be scaled."""
+    u = rng.random()
+    if u < 0.55:
+        return 0, 0
+    if geo_kind == "default" or u < 0.70:
+        return 0, gen_exp(rng)
+    if u < 0.85:
+        return gen_exp(rng), 0
+    return gen_exp(rng), gen_exp(rng)
+
+
+def bucket(k):
+    if k == 0:
+        return "1"
+    a = abs(k)
+    return ("2^-" if k < 0 else "2^+") + ("1..7" if a <= 7 else "8..15" if a <= 15 else "16..24" if a <= 24 else "25..48")
 
 
 def frac(x):
@@ -60,6 +95,8 @@ class Geo:
         self.kind = kind
         self.latlon = kind == "latlon"
         self.seen = {}
+        self.cexp = 0        # cell sizes are multiplied by 2**cexp (set_scale)
+        self.mscale = 1.0    # geographic grids: factor on the metres-per-degree table
         nrow, ncol = shape
         if kind == "default":
             self.transform = None
@@ -85,8 +122,22 @@ class Geo:
                 self.north = float(k) if self.t4 < 0 else float(-k)
             self.hemi = hemi
             self.salt = rng.randint(0, 1000)
+        self.xres0, self.t40 = self.xres, self.t4
         if kind != "default":
-            self.transform = Affine(self.xres, 0.0, float(rng.randint(-20, 20)), 0.0, self.t4, self.north)
+            self.west = float(rng.randint(-20, 20))
+            self.transform = Affine(self.xres, 0.0, self.west, 0.0, self.t4, self.north)
+
+    def set_scale(self, k):
+        """cell sizes times 2**k. projected: xres and transform[4]; geographic: the cell stays the same in degrees (row
+        latitudes unchanged) and the metres-per-degree table is scaled; default transform: not scalable"""
+        assert self.kind != "default" or k == 0
+        self.cexp = k
+        self.seen = {}
+        if self.kind == "projected":
+            self.xres, self.t4 = self.xres0 * 2.0 ** k, self.t40 * 2.0 ** k
+            self.transform = Affine(self.xres, 0.0, self.west, 0.0, self.t4, self.north)
+        elif self.kind == "latlon":
+            self.mscale = 2.0 ** k
 
     # exact table functions of the latitude (not symmetric in lat on purpose)
     def _key(self, lat):
@@ -96,7 +147,7 @@ class Geo:
         k = self._key(lat)
         a, b = TRIPLES[k % len(TRIPLES)]
         s = 1 + (k // len(TRIPLES)) % 3
-        return a * s / abs(self.xres), b * s / abs(self.t4)
+        return a * s * self.mscale / abs(self.xres), b * s * self.mscale / abs(self.t4)
 
     def stub_x(self, lat):
         lat = np.asarray(lat, dtype=np.float64)
@@ -149,6 +200,8 @@ class Geo:
 
     def desc(self):
         d = {"geo": self.kind, "xres": self.xres, "transform[4]": self.t4, "north": self.north}
+        if self.cexp:
+            d["cell_scale"] = f"2**{self.cexp}" + (" (on the degree_metres table)" if self.latlon else " (in xres, transform[4])")
         if self.latlon:
             d["degree_metres_table(lat:[x,y])"] = {str(k): v for k, v in sorted(self.seen.items())}
         return d
@@ -226,6 +279,17 @@ def gen_frc(rng, shape):
     return f, "zones"
 
 
+def scale_frc(rng, shape, frc, fk, k):
+    """whole friction field times 2**k (no friction = uniform 1 -> uniform 2**k)"""
+    if k == 0:
+        return frc, fk
+    if frc is None:
+        frc, fk = np.ones(shape, dtype=rng.choice([np.float32, np.float64])), "uniform"
+    out = frc * frc.dtype.type(2.0 ** k)
+    assert out.dtype == frc.dtype and np.array_equal(out.astype(np.float64), frc.astype(np.float64) * 2.0 ** k)
+    return out, fk
+
+
 def common_args(geo, shape, msk, frc):
     a = geo.driver_args(shape)
     if msk is not None:
@@ -246,6 +310,7 @@ def case_spread(ctx, max_cells):
     geo = gen_geo(rng, shape)
     msk, mk = gen_mask(rng, shape)
     frc, fk = gen_frc(rng, shape)
+    cexp, fexp = gen_scales(rng, geo.kind)
     dt = rng.choice(OBS_DT)
     nodata = rng.choice([0, 0, 0, -9999, 255, 7])
     if dt == np.uint8 and nodata < 0:
@@ -272,7 +337,15 @@ def case_spread(ctx, max_cells):
     if nodata != 0 or rng.random() < 0.5:
         kw["nodata"] = nodata
     obs_in = obs.copy()
+    twin = None
     try:
+        if cexp or fexp:
+            # scale family: first the unscaled twin, then the same case with cell sizes * 2**cexp, friction * 2**fexp
+            twin = geo.call(gis_utils.spread2d, obs, **kw)
+            geo.set_scale(cexp)
+            frc, fk = scale_frc(rng, shape, frc, fk, fexp)
+            if frc is not None:
+                kw["frc"] = frc
         out, src, dst = geo.call(gis_utils.spread2d, obs, **kw)
     except Exception as e:  # valid input: any exception is a failure of the property at this input
         ctx.evaluations += 1
@@ -301,6 +374,11 @@ def case_spread(ctx, max_cells):
         ctx.count("spread:negative-xres")
     if geo.kind != "default" and geo.t4 > 0:
         ctx.count("spread:south-up")
+    ctx.count("spread:scale:cells:" + bucket(cexp))
+    ctx.count("spread:scale:friction:" + bucket(fexp))
+    ctx.count("spread:scale:step-costs:" + bucket(cexp + fexp))
+    if nontriv and (obstacles or fk in ("random", "zones")):
+        ctx.count("spread:scale:step-costs:" + bucket(cexp + fexp) + ":with-obstacles-or-varying-friction")
 
     i_src = ints(src)
     i_out = ints(out)
@@ -312,7 +390,12 @@ def case_spread(ctx, max_cells):
     desc = {"op": "spread2d", "shape": list(shape), "obs": i_obs, "obs_dtype": np.dtype(dt).name, "nodata": int(nodata),
             "msk": None if msk is None else ints(msk), "frc": None if frc is None else [float(x) for x in frc.ravel()],
             "frc_dtype": None if frc is None else frc.dtype.name, **geo.desc()}
-    unreached_ties = 0
+    if fexp:
+        desc["frc_scale"] = f"2**{fexp}"
+    if twin is not None:
+        factor = Fraction(2) ** (cexp + fexp)
+        t_dst = [frac(x) * factor for x in twin[2].ravel().tolist()]
+        t_src, t_out = ints(twin[1]), ints(twin[0])
 
     def judge(ans):
         a = ans[0]
@@ -358,6 +441,25 @@ def case_spread(ctx, max_cells):
             fs.append({"kind": "spec", "what": "input observation raster was modified"})
         if not dtypes_ok:
             fs.append({"kind": "spec", "what": f"dtypes out/src/dst = {out.dtype}/{src.dtype}/{dst.dtype}"})
+        # --- scale family: least costs are homogeneous in the step costs and a power-of-two factor is exact in every
+        # float operation, so dst of the scaled case is exactly factor * dst of the unscaled twin (one of the two is not
+        # the least cost otherwise); src/out may only differ where equally near observations leave a choice
+        if twin is not None:
+            if t_dst != i_dst:
+                bad = [i for i in range(n) if t_dst[i] != i_dst[i]]
+                i = bad[0]
+                fs.append({"kind": "spec", "what": f"distances do not scale with the step costs (cells * 2**{cexp}, friction * "
+                           f"2**{fexp}) at cells {bad[:5]}: cell {i} got {float(i_dst[i])}, unscaled twin {float(twin[2].ravel()[i])} "
+                           f"* 2**{cexp + fexp} = {float(t_dst[i])}", "impl.dst": [float(x) for x in i_dst],
+                           "twin.dst*factor": [float(x) for x in t_dst]})
+            elif t_src != i_src or t_out != i_out:
+                if a["cert.impl"] == [1] and not any(f["kind"] == "spec" for f in fs):
+                    ctx.count("spread:scale:tie-broken-differently-from-unscaled-twin")
+                else:
+                    fs.append({"kind": "spec", "what": "src/out differ from the unscaled twin and are not certified",
+                               "impl.src": i_src, "twin.src": t_src, "impl.out": i_out, "twin.out": t_out})
+            else:
+                ctx.count("spread:scale:identical-to-unscaled-twin")
         # --- model: cell for cell
         if i_dst != m_dst:
             fs.append({"kind": "model", "what": "spread2d dst: implementation != Lean model",
@@ -441,6 +543,9 @@ def case_dissolve(ctx, max_cells):
     k = rng.randint(1, len(present) - 1)
     labels = rng.sample(present, k)
     frc, fk = gen_frc(rng, shape) if rng.random() < 0.5 else (None, "none")
+    cexp, fexp = gen_scales(rng, geo.kind)
+    geo.set_scale(cexp)
+    frc, fk = scale_frc(rng, shape, frc, fk, fexp)
     # optional mask (keyword passed through to spread2d): only obstacles inside surviving regions
     # and background, so that every cell of a dissolved region is allowed
     msk = None
@@ -488,6 +593,7 @@ def case_dissolve(ctx, max_cells):
     ctx.count("dissolve:frc:" + fk)
     ctx.count("dissolve:mask:" + ("yes" if msk is not None else "none"))
     ctx.count("dissolve:survivors:" + str(min(survivors, 3)) + ("+" if survivors >= 3 else ""))
+    ctx.count("dissolve:scale:step-costs:" + bucket(cexp + fexp))
     i_res = ints(res)
     i_reg = ints(reg_in)
     args = common_args(geo, shape, msk, frc)
@@ -497,6 +603,8 @@ def case_dissolve(ctx, max_cells):
     desc = {"op": "region_dissolve", "shape": list(shape), "regions": i_reg, "dtype": np.dtype(dt).name,
             "labels": [int(x) for x in labels], "idxs": idxs, "msk": None if msk is None else ints(msk),
             "frc": None if frc is None else [float(x) for x in frc.ravel()], **geo.desc()}
+    if fexp:
+        desc["frc_scale"] = f"2**{fexp}"
 
     def judge(ans):
         a = ans[0]
